@@ -324,7 +324,8 @@ class Judge:
                 self.ratio(self.max_est_ratio, kind, e2, est)
                 if e2 > est * est:
                     rep["estimate"] = str(float(est)) if est < 10 ** 300 else "huge"
-                    ctx.violation(sig_base + ":mp-estimate n=%d x=%s" % (n, rep["eline"]),
+                    # one signature per evaluator (call site): the estimate formula is the unit that is wrong
+                    ctx.violation("%s:%s:mp-estimate" % (sig_base.split(":")[0], tag),
                                   "multiprecision error estimate is smaller than the actual error", rep)
         return (vre, vim, B)
 
